@@ -76,6 +76,20 @@ fn hash_part(ctx: &Ctx, thorough: bool) {
                 }
             }
         }
+        // long inputs (several thousand blocks)
+        for len in [1000usize, 4095, 4096, 4097, 65535, 100_000] {
+            let d = pat(len, 2);
+            let want = h.hash(&[&d]);
+            let mut out = vec![0u8; 64];
+            obj.reset();
+            obj.input(&d[..len / 3]);
+            obj.input(&d[len / 3..]);
+            obj.result(&mut out);
+            n += 1;
+            if out[..hl] != want[..] {
+                ctx.violation("hash output differs from the standard", format!("{who} len {len}"), json!({"kind": "hash", "hash": h.name(), "ring": ring, "len": len}));
+            }
+        }
         // HMAC: every key length 0..=block_len x every data length 0..=3*block_len+1 (stride in quick)
         let dstep = if thorough { 1 } else { 7 };
         for klen in 0..=bl {
@@ -234,13 +248,43 @@ fn aead_part(ctx: &Ctx, thorough: bool) {
         let pts: Vec<usize> = (0..=65).chain([127, 128, 129, 255, 256, 1000]).collect();
         for a in &ads {
             for p in &pts {
-                if thorough || *a <= 17 || *p <= 17 || (a % 16 <= 1 && p % 16 <= 1) {
+                if true || thorough || *a <= 17 || *p <= 17 || (a % 16 <= 1 && p % 16 <= 1) {
                     aead_case(ctx, *c, *ring, &mut obj, &key0, 0x0102_0304_0506_0708, &pat(*a, 7), &pat(*p, 8), *p <= 32 && *a <= 1);
                 }
             }
         }
         for p in [65518usize, 65519] {
             aead_case(ctx, *c, *ring, &mut obj, &key0, 1 << 33, &pat(32, 7), &pat(p, 8), false);
+        }
+        // every plaintext length (thorough; quick: every length below 1100, every 64th up to 65519 and
+        // the neighbours of every power of two) - chunked processing bugs hide at lengths no alphabet names
+        let big = pat(65519, 9);
+        let mut lens: Vec<usize> = if thorough { (0..=65519).collect() } else { (0..1100).chain((1100..=65519).step_by(64)).collect() };
+        for k in 10..16 {
+            lens.extend([(1usize << k) - 1, 1 << k, (1 << k) + 1]);
+        }
+        lens.sort_unstable();
+        lens.dedup();
+        lens.retain(|l| *l <= 65519);
+        let mut out = vec![0u8; 65535];
+        let mut back = vec![0u8; 65535];
+        for l in lens {
+            obj.set(&key0);
+            let n = obj.encrypt(7 + l as u64, &ad0, &big[..l], &mut out[..l + 16]);
+            ctx.add(&ctx.evaluations, 1);
+            let want = c.encrypt(&key0, 7 + l as u64, &ad0, &big[..l]);
+            if n != l + 16 || out[..n] != want[..] {
+                ctx.violation("AEAD ciphertext differs from the standard with the Noise nonce encoding", format!("{} {} plaintext length {l}", bk(*ring), c.name()), json!({"kind": "aead-len", "cipher": c.name(), "ring": ring, "len": l}));
+                break;
+            }
+            match obj.decrypt(7 + l as u64, &ad0, &want, &mut back[..l]) {
+                Ok(m) if m == l && back[..l] == big[..l] => {},
+                _ => {
+                    ctx.violation("decrypt does not invert encrypt", format!("{} {} plaintext length {l}", bk(*ring), c.name()), json!({"kind": "aead-len", "cipher": c.name(), "ring": ring, "len": l}));
+                    break;
+                },
+            }
+            ctx.add(&ctx.nontrivial, 1);
         }
         // rekey (trait default or backend override) against the reference REKEY
         for k in [&key0, &keys[0], &keys[7]] {
@@ -433,7 +477,7 @@ pub fn run(tier: Tier) -> i32 {
     let thorough = !ctx.quick();
     ctx.set_rule("every case calls the public trait methods of the objects returned by DefaultResolver / RingResolver and compares with an independent implementation: hash (all lengths 0..=3 blocks+1, split inputs), HMAC (every key length 0..=block_len x data lengths 0..=3 blocks+1), HKDF (1/2/3 outputs x ikm lengths x chaining keys), AEAD (keys: zero, ones, every single-bit key; nonces: boundary + every single bit + endianness witness + 2^64-1; ad/pt length grid around block edges, 65519; round trip; every bit flip and truncation of ciphertexts <= 48 bytes, wrong nonce/ad/key rejected; rekey), DH (RFC vectors, every single-bit scalar, edge scalars x base/RFC/low-order/non-canonical/arbitrary points; P-256 invalid encodings; generated key pairs consistent, symmetric, distinct; RFC 7748 iterated test)");
     hash_part(&ctx, true);
-    aead_part(&ctx, true);
+    aead_part(&ctx, thorough);
     dh_part(&ctx, thorough);
     let ev = ctx.evaluations.load(std::sync::atomic::Ordering::Relaxed);
     ctx.states.store(ev, std::sync::atomic::Ordering::Relaxed);
